@@ -26,6 +26,13 @@ TARGET = os.path.join(ALT_DIR, "target")
 TARGET_CLI = os.path.join(ALT_DIR, "target-cli")
 CLI_BIN = os.path.join(TARGET_CLI, "debug", "circomspect")
 EVIDENCE_DIR = os.path.join(ALT_DIR, "evidence") if ALT else os.path.join(VERIF, "evidence")
+if ALT:
+    # An alternative run works on its own copy of the Coq development (made on
+    # first use, with the compiled files, so nothing is rebuilt needlessly): the
+    # regenerated fragments coq/gen/*.v of a changed tree must never replace the
+    # ones the real run proves its theorems against, and two runs may overlap.
+    COQ = os.path.join(ALT_DIR, "coq")
+    WORK = os.path.join(ALT_DIR, "work")
 GUARD = "circomspect_verif"
 NPROC = os.cpu_count() or 4
 
@@ -170,8 +177,23 @@ def write_if_changed(path, content):
     return True
 
 
+def alt_coq_copy():
+    """First use of an alternative tree: copy the Coq development (sources and
+    compiled files, time stamps kept) next to that tree's other build output."""
+    if not ALT or os.path.exists(os.path.join(COQ, ".copied")):
+        return
+    with Lock("coq"):                      # never copy while the real run is compiling
+        with Lock("coqcopy" + ALT_TAG):
+            if os.path.exists(os.path.join(COQ, ".copied")):
+                return
+            os.makedirs(COQ, exist_ok=True)
+            sh(["rsync", "-a", "--delete", os.path.join(VERIF, "coq") + "/", COQ + "/"], check=True)
+            open(os.path.join(COQ, ".copied"), "w").write(time.strftime("%Y-%m-%dT%H:%M:%S"))
+
+
 def coq_project():
     """Regenerates _CoqProject and the Makefile from the directory contents."""
+    alt_coq_copy()
     files = []
     for sub in ("model", "spec", "gen", "proofs", "props"):
         d = os.path.join(COQ, sub)
@@ -198,7 +220,7 @@ def _coq_make_nolock(targets, timeout=1500):
 
 def coq_make(targets, timeout=1500):
     """Full .vo build (never -vos) of the given targets and their cones."""
-    with Lock("coq"):
+    with Lock("coq" + ALT_TAG):
         return _coq_make_nolock(targets, timeout)
 
 
@@ -274,7 +296,7 @@ def check_proofs(prop, extra_targets=()):
         res["failures"].append("forbidden declarations: " + "; ".join(hits[:10]))
     # force the property file itself to be re-checked on every run; deleting, building and reading the
     # output happen under one lock so that two concurrent checks cannot steal each other's output
-    with Lock("coq"):
+    with Lock("coq" + ALT_TAG):
         for ext in (".vo", ".vok", ".vos", ".glob"):
             try:
                 os.remove(os.path.join(COQ, "props", prop + ext))
@@ -315,8 +337,8 @@ def build_model(engine):
     """Extracts coq/extract/<engine>.v (ExtrOcamlBasic only) into its own
     directory and links it with drvlib.ml and coq/extract/<engine>.ml.
     Returns the path of the model driver binary."""
-    binary = os.path.join(CACHE, "model_" + engine)
-    with Lock("extract-" + engine):
+    binary = os.path.join(ALT_DIR, "model_" + engine)
+    with Lock("extract-" + engine + ALT_TAG):
         ev = os.path.join(COQ, "extract", engine + ".v")
         body = strip_coq_comments(open(ev).read())
         mods = sorted(set(re.findall(r"\b(Model|Spec|Gen)\.([A-Za-z0-9_]+)", body)))
@@ -328,11 +350,11 @@ def build_model(engine):
             + tree_files(os.path.join(COQ, "gen"), (".v",)) \
             + [ev, os.path.join(COQ, "extract", engine + ".ml"), os.path.join(COQ, "extract", "drvlib.ml")] \
             + [os.path.join(COQ, "extract", x) for x in sorted(os.listdir(os.path.join(COQ, "extract"))) if x.startswith("lib_")]
-        stamp = os.path.join(CACHE, "extract-%s.stamp" % engine)
+        stamp = os.path.join(ALT_DIR, "extract-%s.stamp" % engine)
         h = file_hash(src)
         if os.path.exists(binary) and os.path.exists(stamp) and open(stamp).read() == h:
             return binary
-        d = os.path.join(CACHE, "extract", engine)
+        d = os.path.join(ALT_DIR, "extract", engine)
         os.makedirs(d, exist_ok=True)
         for f in os.listdir(d):
             os.remove(os.path.join(d, f))
